@@ -295,6 +295,16 @@ Theorem C14_nl_in_brackets_program : forall ts ts' f,
   end.
 Proof. exact (nl_in_brackets_program gen_ptab C14_bracket_sane C14_total_ok). Qed.
 
+(* comments, end to end on the parser side: two files that differ only in comments have the same normal form *)
+Theorem C14_comments_same_normal_form : forall ts ts' f ss c ss' c',
+  CommentSim.ec ts = CommentSim.ec ts' -> hd TEOF (CommentSim.ec ts) <> TEOF ->
+  parse_program gen_ptab f ts = Ok (ss, c) -> parse_program gen_ptab f ts' = Ok (ss', c') ->
+  snf_program ss = snf_program ss'.
+Proof.
+  intros ts ts' f ss c ss' c' H Hne E E'. pose proof (C14_comments_anywhere ts ts' f H Hne) as G.
+  rewrite E, E' in G. apply snf_program_of_noempty. exact G.
+Qed.
+
 (* ---- stated, not proved ---- *)
 Definition C14_nl_in_brackets_statement_level : Prop := nl_in_brackets_statement_level gen_ptab.   (* refuted above *)
 Definition C14_ws_insert_whole_input : Prop := ws_insert_statement gen_table.
@@ -473,6 +483,7 @@ Print Assumptions C14_nf_arrow.
 Print Assumptions C14_nf_implicit_ret.
 Print Assumptions C14_nf_tail_statement.
 Print Assumptions C14_nf_program.
+Print Assumptions C14_comments_same_normal_form.
 Print Assumptions C14_layout_token.
 Print Assumptions C14_layout_skip.
 Print Assumptions C14_layout_lookahead.
@@ -598,7 +609,7 @@ Print Assumptions C14_unreachable_line_matters.
                       type checker accepts both.
    Limit: a FUNCTION phi exists when no node outside the new parentheses has exactly the span of the expression
    inside them (a parenthesised expression statement is the counter-example: statement and expression share a span
-   before, not after); the relational generalisation is not proved here.  The parser step text -> AST
+   before, not after); the relational form C14_columns_resolve below has no such limit.  The parser step text -> AST
    (that inserting parentheses yields such an a2) and the type checker's indifference to spans stay outside. *)
 From Sylt Require Resolve.SpanMap Resolve.SpanMapProofs Resolve.PositionsLua.
 
@@ -661,3 +672,66 @@ Print Assumptions C14_resolve_natural.
 Print Assumptions C14_parens_and_positions_resolve.
 Print Assumptions C14_parens_and_positions_same_lua.
 Print Assumptions C14_positions_example.
+
+(* ---- the relational form (Resolve/SpanMapRel.v, Resolve/ColumnsLua.v): no function between the spans of the two
+   programs is needed, so EVERY insertion of redundant parentheses is covered (a parenthesised expression statement
+   included).  same_modulo_parens_and_columns a1 a2: the ASTs are equal after removing every Parenthesis node and
+   forgetting the columns and the last line of every span (file id and first line stay).  Side condition on each
+   program: the names of two `use` statements are not on the same line of the same file (the resolver compares
+   these spans; statements are separated by newlines) -- computable (use_names_separatedb) and evaluated on every real
+   tree of the C09 tie. *)
+From Sylt Require Resolve.SpanMapRel Resolve.ColumnsLua.
+
+Theorem C14_columns_resolve : forall fl a1 a2,
+  Sylt.Resolve.ColumnsLua.same_modulo_parens_and_columns a1 a2 ->
+  Sylt.Resolve.ColumnsLua.use_names_separated (Sylt.Resolve.Parens.strip_parens a1) ->
+  Sylt.Resolve.ColumnsLua.use_names_separated (Sylt.Resolve.Parens.strip_parens a2) ->
+  match Sylt.Resolve.Resolver.resolve fl a1, Sylt.Resolve.Resolver.resolve fl a2 with
+  | Sylt.Resolve.Resolver.Ok r1, Sylt.Resolve.Resolver.Ok r2 => Sylt.Back.SpanProofs.same_modulo_spans r1 r2
+  | Sylt.Resolve.Resolver.Err es1, Sylt.Resolve.Resolver.Err es2 =>
+      map Sylt.Resolve.Resolver.e_kind es2 = map Sylt.Resolve.Resolver.e_kind es1
+  | Sylt.Resolve.Resolver.Panic s1, Sylt.Resolve.Resolver.Panic s2 => s1 = s2
+  | Sylt.Resolve.Resolver.OutOfFuel, Sylt.Resolve.Resolver.OutOfFuel => True
+  | _, _ => False
+  end.
+Proof. exact Sylt.Resolve.ColumnsLua.columns_resolve. Qed.
+
+Theorem C14_columns_same_lua : forall fl tgt fuel_tc fuel req a1 a2 r1 l1,
+  Sylt.Resolve.ColumnsLua.same_modulo_parens_and_columns a1 a2 ->
+  Sylt.Resolve.ColumnsLua.use_names_separated (Sylt.Resolve.Parens.strip_parens a1) ->
+  Sylt.Resolve.ColumnsLua.use_names_separated (Sylt.Resolve.Parens.strip_parens a2) ->
+  Sylt.Resolve.Resolver.resolve fl a1 = Sylt.Resolve.Resolver.Ok r1 ->
+  Sylt.Dep.Topo.init_order tgt (Sylt.Syntax.Resolved.r_stmts r1) = Sylt.Dep.Topo.OOk l1 ->
+  exists r2 l2, Sylt.Resolve.Resolver.resolve fl a2 = Sylt.Resolve.Resolver.Ok r2
+    /\ Sylt.Dep.Topo.init_order tgt (Sylt.Syntax.Resolved.r_stmts r2) = Sylt.Dep.Topo.OOk l2
+    /\ forall out1 out2,
+         Sylt.Types.Tc.compile_after_order (Sylt.Back.Emit.backend fuel req) fuel_tc
+           (Sylt.Syntax.Resolved.mkResolved (Sylt.Syntax.Resolved.r_vars r1) l1) = Sylt.Types.Tc.COk out1 ->
+         Sylt.Types.Tc.compile_after_order (Sylt.Back.Emit.backend fuel req) fuel_tc
+           (Sylt.Syntax.Resolved.mkResolved (Sylt.Syntax.Resolved.r_vars r2) l2) = Sylt.Types.Tc.COk out2 ->
+         out1 = out2.
+Proof. exact Sylt.Resolve.ColumnsLua.columns_same_lua. Qed.
+
+Theorem C14_use_names_separatedb_sound : forall ast,
+  Sylt.Resolve.ColumnsLua.use_names_separatedb ast = true -> Sylt.Resolve.ColumnsLua.use_names_separated ast.
+Proof. exact Sylt.Resolve.ColumnsLua.use_names_separatedb_sound. Qed.
+
+(* non-vacuity: the expression statement `g()` and `(g())`: the hypotheses hold, both are accepted, the resolved
+   programs differ in spans and are equal modulo spans (no function on spans relates the two ASTs: the statement and the
+   call share a span in the first and not in the second) *)
+Theorem C14_columns_example :
+  Sylt.Resolve.ColumnsLua.same_modulo_parens_and_columns Sylt.Resolve.ColumnsLua.ex_b1 Sylt.Resolve.ColumnsLua.ex_b2
+  /\ Sylt.Resolve.ColumnsLua.use_names_separated (Sylt.Resolve.Parens.strip_parens Sylt.Resolve.ColumnsLua.ex_b1)
+  /\ Sylt.Resolve.ColumnsLua.use_names_separated (Sylt.Resolve.Parens.strip_parens Sylt.Resolve.ColumnsLua.ex_b2)
+  /\ (exists r1 r2,
+        Sylt.Resolve.Resolver.resolve (Sylt.Resolve.Resolver.mkFlags true true true true false) Sylt.Resolve.ColumnsLua.ex_b1
+        = Sylt.Resolve.Resolver.Ok r1
+        /\ Sylt.Resolve.Resolver.resolve (Sylt.Resolve.Resolver.mkFlags true true true true false) Sylt.Resolve.ColumnsLua.ex_b2
+           = Sylt.Resolve.Resolver.Ok r2
+        /\ r1 <> r2 /\ Sylt.Back.SpanProofs.same_modulo_spans r1 r2).
+Proof. exact Sylt.Resolve.ColumnsLua.columns_example. Qed.
+
+Print Assumptions C14_columns_resolve.
+Print Assumptions C14_columns_same_lua.
+Print Assumptions C14_use_names_separatedb_sound.
+Print Assumptions C14_columns_example.
